@@ -38,6 +38,21 @@ def build(start, dt, stop):
     return m, s
 
 
+def build_threshold(start, dt, stop, label):
+    """a converter with a time threshold exactly on a grid label, and a stock fed by it"""
+    from BPTK_Py import Model
+    from BPTK_Py import sd_functions as sd
+    m = Model(starttime=start, stoptime=stop, dt=dt, name="thr")
+    th = m.converter("th")
+    th.equation = sd.step(1.0, label)
+    c = m.converter("c")
+    c.equation = sd.If(sd.time() >= label, 2.0, 0.0)
+    s2 = m.stock("s2")
+    s2.initial_value = 0.0
+    s2.equation = th + c
+    return m, th, c, s2
+
+
 _bptk = None
 _n = [0]
 
@@ -93,6 +108,23 @@ def check_triple(start, dt, n, channels):
             acc = acc + dt
             if viol:
                 break
+        # same grid point, same value - also for elements with a threshold exactly on a grid label, whether they are
+        # evaluated directly at the label or first reached through the t-dt recursion of a stock
+        if not viol and n >= 2:
+            j = n // 2
+            m1, th1, c1, s21 = build_threshold(start, dt, stop, want[j])
+            direct = [(th1(t), c1(t)) for t in want]
+            s_direct = [s21(t) for t in want]
+            m2, th2, c2, s22 = build_threshold(start, dt, stop, want[j])
+            s22(want[-1])
+            rec = [(th2(t), c2(t)) for t in want]
+            s_rec = [s22(t) for t in want]
+            if direct != rec:
+                k = next(i for i, (a, b) in enumerate(zip(direct, rec)) if a != b)
+                viol.append(("route-value/threshold-on-grid", "start=%r dt=%r threshold at label %r: (step, If) at grid point %d (%r) evaluated directly %r, "
+                             "after a stock recursion %r" % (start, dt, want[j], k, want[k], direct[k], rec[k])))
+            elif any(not core.close(a, b, rel=1e-9, ab=1e-9) for a, b in zip(s_direct, s_rec)):
+                viol.append(("route-value/threshold-stock", "start=%r dt=%r: stock fed by a threshold differs by evaluation order %r vs %r" % (start, dt, s_direct[-3:], s_rec[-3:])))
     if "plot" in channels:
         m, s = build(start, dt, stop)
         df = s.plot(return_df=True)
@@ -141,6 +173,21 @@ def check_triple(start, dt, n, channels):
                         viol.append(("session/value", "start=%r dt=%r i=%d: %r" % (start, dt, i, v)))
                         break
             sr = b.session_results()
+            if start >= 0:
+                # the same session begun without naming the start time (the session starts at the scenario's start)
+                keys_named = [float(k) for k in sr.keys()]
+                b.begin_session(scenarios=["base"], scenario_managers=[sm], equations=["s"], dt=dt)
+                times2 = []
+                for _ in range(n + 4):
+                    r = b.run_step()
+                    if isinstance(r, dict) and r.get("msg") == "Stoptime reached":
+                        break
+                    times2 += [float(t) for t in r[sm]["base"]["s"].keys()]
+                cmp("session/default-starttime-keys", times2)
+                b.begin_session(scenarios=["base"], scenario_managers=[sm], equations=["s"], starttime=start, dt=dt)
+                for _ in range(n + 1):
+                    b.run_step()
+                sr = b.session_results()
             cmp("session/results-log-keys", [float(k) for k in sr.keys()])
             sr2 = b.session_results(index_by_time=False)
             try:
@@ -148,6 +195,16 @@ def check_triple(start, dt, n, channels):
             except Exception as e:
                 viol.append(("session/results-by-equation-raises", repr(e)))
             b.end_session()
+            # a scenario whose run specs override the model's: the run reports the scenario's grid
+            m2, s2 = build(0, 1.0, 3.0)
+            sm2 = sm + "o"
+            b.register_model(m2, scenario_manager=sm2, scenario={"ov": {"runspecs": {"starttime": start, "stoptime": stop, "dt": dt}, "constants": {"r": 1.0 / dt}}})
+            try:
+                for rep in (1, 2):
+                    df2 = b.run_scenarios(scenarios=["ov"], scenario_managers=[sm2], equations=["s"], return_format="df")
+                    cmp("run_scenarios/scenario-runspec-index(run %d)" % rep, [float(x) for x in df2.index])
+            finally:
+                b.scenario_manager_factory.scenario_managers.pop(sm2, None)
         except Exception as e:
             import traceback
             viol.append(("bptk-channel-raises/%s" % type(e).__name__, "start=%r dt=%r n=%d: %s" % (start, dt, n, traceback.format_exc()[-400:])))
